@@ -47,7 +47,7 @@ def main():
         "hooks": {
             "guard": "verif",
             "enable": "go build -tags verif (harness module /verif/harness with replace github.com/varlink/go => /repo)",
-            "baseline_off_cmd": "cd /repo && GOFLAGS=-mod=mod GOPROXY=off go test -vet=off -count=1 ./...",
+            "baseline_off_cmd": "cd /repo && GOFLAGS=-mod=mod GOPROXY=off GOSUMDB=off go test -vet=off -count=1 ./varlink/... ./cmd/varlink-go-interface-generator/...",
             "source_commits": ["8f12314"],
             "add_only": True,
         },
